@@ -177,6 +177,54 @@ class NpShim:
             return self.isclose(a, b, rtol=rtol, atol=atol, equal_nan=equal_nan).all()
         return _np.allclose(a, b, rtol=rtol, atol=atol, equal_nan=equal_nan)
 
+    # -- element-wise comparisons and selection on proxy vectors ---------------------------------------------------
+    def _cmp(self, name, a, b):
+        import operator
+        op = {'greater': operator.gt, 'less': operator.lt, 'greater_equal': operator.ge, 'less_equal': operator.le,
+              'equal': operator.eq, 'not_equal': operator.ne}[name]
+        if isinstance(a, SArr) or isinstance(b, SArr):
+            self._count(name)
+            n = len(a) if isinstance(a, SArr) else len(b)
+            xs = a.items if isinstance(a, SArr) else [a] * n
+            ys = b.items if isinstance(b, SArr) else [b] * n
+            return SArr([op(x, y) for x, y in zip(xs, ys)], 'b')
+        if is_proxy(a) or is_proxy(b):
+            self._count(name)
+            return op(a, b)
+        return getattr(_np, name)(a, b)
+
+    def greater(self, a, b, *args, **k):
+        return self._cmp('greater', a, b)
+
+    def less(self, a, b, *args, **k):
+        return self._cmp('less', a, b)
+
+    def greater_equal(self, a, b, *args, **k):
+        return self._cmp('greater_equal', a, b)
+
+    def less_equal(self, a, b, *args, **k):
+        return self._cmp('less_equal', a, b)
+
+    def where(self, cond, x=None, y=None):
+        if x is None and y is None:
+            return _np.where(cond)
+        if isinstance(cond, SArr) or isinstance(x, SArr) or isinstance(y, SArr):
+            import z3 as _z3
+            from .values import SBool as _SB, _sf as __sf
+            self._count('where')
+            n = max(len(v) for v in (cond, x, y) if isinstance(v, SArr))
+            cs = cond.items if isinstance(cond, SArr) else [cond] * n
+            xs = x.items if isinstance(x, SArr) else [x] * n
+            ys = y.items if isinstance(y, SArr) else [y] * n
+            out = []
+            for c, u, v in zip(cs, xs, ys):
+                if isinstance(c, _SB):
+                    out.append(SFloat(_z3.If(c.t, __sf(u).t, __sf(v).t)))
+                else:
+                    out.append(u if bool(c) else v)
+            return SArr(out)
+        return _np.where(cond, x, y)
+
     def _fold(self, x, pick):
         items = list(x.items)
         if not items:
